@@ -1,5 +1,5 @@
 SPECIFICATION SpecC
-CONSTANTS Names <- NamesQ Depth = 3 Vals <- ValsQ Sep = 46 Design = "list" Base <- BaseAB MaxSlots = 4
+CONSTANTS Names <- Names2 Depth = 3 Vals <- ValsQ Sep = 46 Design = "list" Base <- BaseAB MaxSlots = 4
   Strs <- NoStrs Seps <- NoStrs Asgs <- NoStrs Elems <- NoStrs
 CONSTRAINT Bound
 VIEW ViewC
